@@ -216,6 +216,27 @@ def _check_comb(acc, k, first, nopt):
             if got != Counter(wants):
                 acc.violation("all_combinations", "sums", inp, "wrong_enumeration", f"{len(wants)} distinct sum vectors",
                               f"{sum(got.values())} yields, repeated={[p for p, c in got.items() if c > 1][:2]}, missing={list(wants - set(got))[:2]}, extra={list(set(got) - wants)[:2]}", case)
+        # an enumeration suspended after its first yield while another one runs to completion on the SAME manager object
+        # (nested loops / zip over two enumerations): the resumed one must still yield every pairing exactly once
+        if k <= 3:
+            for nm, mgr, a1, a2, canon, wanted in (
+                    ("contents", bk, b1, b2, lambda y: tuple(sorted(tuple(sorted(b)) for b in y[1])), Counter(want)),
+                    ("sums", bs, s1, s2, lambda y: tuple(sorted(float(v) for v in y)), Counter(wants))):
+                acc.ran("all_combinations.nested")
+                try:
+                    g = mgr.all_combinations(a1, a2)
+                    seen = []
+                    for t, y in enumerate(g):
+                        seen.append(canon(y))
+                        if t == 0:
+                            for _ in mgr.all_combinations(a2, a1):
+                                pass
+                    got = Counter(seen)
+                except Exception as e:
+                    acc.violation("all_combinations", nm + ";nested", inp, "raises", "pairings", f"{type(e).__name__}: {e}", dict(case, nested=True)); continue
+                if got != wanted:
+                    acc.violation("all_combinations", nm + ";nested", inp, "wrong_enumeration_when_another_enumeration_runs_in_between",
+                                  f"{len(wanted)} distinct, each once", f"{sum(got.values())} yields, repeated={[p for p, c in got.items() if c > 1][:2]}, missing={list(set(wanted) - set(got))[:2]}", dict(case, nested=True))
         acc.check()
         acc.point(nontrivial=(len(want) >= 2))
         acc.outcome((k, len(want), len(wants)))
